@@ -152,10 +152,15 @@ def main(argv=None):
 
     # known findings are expected to reproduce; a known-finding case also
     # disagrees with the corrected-behaviour model only if the model says so
+    # (only for the findings whose model is written to the corrected behaviour:
+    # drv.MODEL_CORRECTED lists their keys; where the model is faithful to the
+    # defect a disagreement on such a case is a broken tie like any other)
+    corrected = set(getattr(drv, 'MODEL_CORRECTED', ()))
     dis_new = [c for c in dis
-               if (c.get('key') or (drv.fingerprint(c)
-                                    if hasattr(drv, 'fingerprint') else None))
-               not in open_keys]
+               if not ((c.get('key') or (drv.fingerprint(c)
+                                         if hasattr(drv, 'fingerprint') else None))
+                       in open_keys and
+                       (c.get('key') or drv.fingerprint(c)) in corrected)]
     tie_ok = (not dis_new) and not tie_note and not extra['tie']
 
     searched = 0
